@@ -84,7 +84,7 @@ TOL_HARMONIC = 3e-11
 # Visible Sun fraction: the repository obtains the apparent separation from arccos(dot/(|r||d|)), conditioning
 # eps/sin(c) <= 2e-15 rad for c >= 0.1 rad, times d(fraction)/dc <= 2/(pi a) = 140 / rad -> 3e-13; near tangency of
 # the discs sqrt behaviour adds ~sqrt(eps)*a^... ; worst observed 4e-12 -> 4e-10.
-TOL_FRACTION = 4e-10
+K_FRACTION = 100.0
 # Frame: the force model takes the sidereal angle from the calendar fields of the *float* Julian date
 # (half an ulp of 2.45e6 d = 20.1 us -> 1.47e-9 rad; worst observed 1.6e-9) while precession/nutation/polar motion
 # come from the whole-second rounded datetime (<= 0.5 s x 1e-11 rad/s).  5e-8 rad = 30x that hard bound; a dropped
@@ -101,7 +101,7 @@ TOL_MOON_DEG, TOL_MOON_DIST = 0.5, 8e-3
 TOL_CHEB = 1e-13
 # Continuity: second difference of positions sampled at -3d,-d,+d,+3d around a boundary (d = 1e-6 day): physical part
 # a d^2 < 1e-7 km; rounding of 1e8..1e9 km barycentric vectors 1e-7..1e-6 km; worst observed ratio to the bound below 0.02.
-CONT_DELTA = 1e-6
+CONT_DELTA = 2.0 ** -20
 
 
 class _Env:
@@ -214,16 +214,25 @@ def _build_dyn(E, cfg):
     return dyn, float(jd0)
 
 
-def _reference(E, cfg, jd, R, r, v):
+def _positions(E, jd):
+    """Geocentric body positions at the float Julian date - the repository's own ephemeris (an input here)."""
+    return {b: np.array(E.body[b].getPosition(jd), dtype=float) for b in BODY_NAMES}
+
+
+def _reference(E, cfg, pos, R, r, v):
     """Reference acceleration for one state from the configuration dict (not from the object's attributes)."""
     C, S = _coeffs(E, cfg["model"])
     names = [b for b in BODY_NAMES if b in {str(x).lower() for x in cfg["third_bodies"]}]
-    pos = {b: np.array(E.body[b].getPosition(jd), dtype=float) for b in BODY_NAMES}
     bodies = [(b, E.body[b].mu, pos[b]) for b in names]
     srp_all = {"sun": pos["sun"], "sat_ratio": float(cfg["sat_ratio"]), "pressure": E.const.SOLAR_PRESSURE, "au": E.const.AU2KM,
                "sun_radius": E.body["sun"].radius, "earth_radius": E.Earth.radius}
     total, terms, frac = fr.total_accel(r, v, R, E.Earth.mu, E.Earth.radius, C, S, int(cfg["degree"]), int(cfg["order"]),
                                         bodies, srp_all if cfg["srp"] else None, E.c_km_s if cfg["gr"] else None)
+    extra_tol = 0.0
+    if cfg["srp"]:
+        _, (a_, b_, c_) = fr.sun_visible_fraction(r, pos["sun"], srp_all["sun_radius"], srp_all["earth_radius"])
+        full = float(np.linalg.norm(fr.srp_accel(r, pos["sun"], srp_all["sat_ratio"], srp_all["pressure"], srp_all["au"], 1.0).astype(float)))
+        extra_tol = full * K_FRACTION * fr.fraction_error_scale(a_, b_, c_)
     # candidate terms that are NOT configured (to recognise "present although not configured")
     absent = {}
     for b in BODY_NAMES:
@@ -236,7 +245,7 @@ def _reference(E, cfg, jd, R, r, v):
         absent["gr"] = fr.schwarzschild_accel(r, v, E.Earth.mu, E.c_km_s).astype(float)
     if int(cfg["degree"]) < 2:
         absent["geopotential"] = R @ fr.geopotential_accel(R.T @ r, E.Earth.mu, E.Earth.radius, C, S, 2, 0)
-    return total, terms, absent, frac
+    return total, terms, absent, frac, extra_tol
 
 
 def _classify(diff, terms, absent):
@@ -273,14 +282,15 @@ def post_check(ctx, E, cfg, jd0, t, y, out, R, mon, wit):
     K = y.size // 6
     Y, D = y.reshape(6, K), out.reshape(6, K)
     jd = float(jd0) + float(t) / 86400
+    pos = _positions(E, jd)
     worst = 0.0
     observable = False
     for j in range(K):
         r, v = Y[:3, j], Y[3:, j]
         ctx.check(bool(np.all(D[:3, j] == v)), "velocity-passthrough", f"d(position) of state {j}/{K} is not its velocity", wit, mon=mon)
-        total, terms, absent, frac = _reference(E, cfg, jd, R, r, v)
+        total, terms, absent, frac, extra_tol = _reference(E, cfg, pos, R, r, v)
         na = float(np.linalg.norm(total))
-        tol = TOL_TOTAL * na
+        tol = TOL_TOTAL * na + extra_tol
         diff = D[3:, j] - total
         err = float(np.linalg.norm(diff))
         worst = max(worst, err / tol)
@@ -302,7 +312,7 @@ def post_check(ctx, E, cfg, jd0, t, y, out, R, mon, wit):
             key = _classify(diff, terms, absent)
             mags = {k: float(np.linalg.norm(a)) for k, a in terms.items()}
             ctx.check(False, "deriv-" + key,
-                      f"state {j} of K={K}: |a_repo - a_ref| = {err:.3e} km/s^2 = {err / na:.2e} |a| (tol {TOL_TOTAL:.0e}); "
+                      f"state {j} of K={K}: |a_repo - a_ref| = {err:.3e} km/s^2 = {err / na:.2e} |a| (tol {tol / na:.1e}); "
                       f"a_repo={_f(D[3:, j])} a_ref={_f(total)}; reference terms |.|={mags}; cfg: {cfg['model']} {cfg['degree']}x{cfg['order']} "
                       f"bodies={cfg['third_bodies']} srp={cfg['srp']} gr={cfg['gr']}", wit, mon=mon)
     return worst, observable
@@ -334,7 +344,7 @@ def frame_check(ctx, E, jd0, t, R, wit):
     except Exception:  # noqa: BLE001  (table end)
         return None
     leap = e1.delta_atomic_time - e0.delta_atomic_time
-    step = (OMEGA_E * abs((e1.delta_ut1 - e0.delta_ut1) - leap * (1 if other > ex.date() else -1)) + abs(e1.x_p - e0.x_p) + abs(e1.y_p - e0.y_p)
+    step = (OMEGA_E * abs((e1.delta_ut1 - e0.delta_ut1) - leap) + abs(e1.x_p - e0.x_p) + abs(e1.y_p - e0.y_p)
             + abs(e1.d_delta_psi - e0.d_delta_psi) + abs(e1.d_delta_eps - e0.d_delta_eps))
     tol = TOL_FRAME + 1.5 * step
     ctx.count("frame_day_seam_cases")
@@ -469,7 +479,7 @@ def gen_state(rng, E, sun, kind=None):
         n /= np.linalg.norm(n)
         a_sun = math.asin(E.body["sun"].radius / np.linalg.norm(sun))
         edge = rng.choice([-1.0, 1.0, rng.uniform(-2, 2), rng.uniform(-1.05, -0.95), rng.uniform(0.95, 1.05), 0.0])
-        psi = math.asin(RE / rr) + edge * a_sun - rr * math.sin(math.asin(RE / rr)) / np.linalg.norm(sun)
+        psi = math.asin(RE / rr) + edge * a_sun + RE / np.linalg.norm(sun)  # + parallax of the Sun direction
         d = -s * math.cos(psi) + n * math.sin(psi)
     r = rr * d
     vc = math.sqrt(E.Earth.mu / rr)
@@ -534,19 +544,22 @@ def term_checks(ctx, E, cfg, jd, R, x, rng):
     sun = pos["sun"]
     got_f = float(E.viz(r, sun))
     ref_f, (a, b_, c) = fr.sun_visible_fraction(r, sun, E.body["sun"].radius, E.Earth.radius)
-    ctx.check(abs(got_f - ref_f) <= TOL_FRACTION and 0.0 <= got_f <= 1.0, "sun-visible-fraction",
+    tol_f = 1e-15 + K_FRACTION * fr.fraction_error_scale(a, b_, c)
+    ctx.check(abs(got_f - ref_f) <= tol_f, "sun-visible-fraction",
               f"calculateSunVizFraction = {got_f!r}, two-disc overlap reference = {ref_f!r} (apparent radii {a:.6e}, {b_:.6e}, separation {c:.6e} rad)",
               {"kind": "fraction", **w}, mon="sun_fraction")
-    _track(ctx, "sun_fraction", abs(got_f - ref_f) / TOL_FRACTION)
-    if 0 < ref_f < 1:
+    _track(ctx, "sun_fraction", abs(got_f - ref_f) / tol_f)
+    if 0 < ref_f < 1 and tol_f < 1e-6:
         ctx.count("fraction_partial_cases")
+    elif tol_f >= 1e-6:
+        ctx.count("fraction_cases_in_tangency_band")
     if hasattr(sp.SpecialPerturbations, "_getSolarRadiationPressureAcceleration"):
         dyn, _ = _build_dyn(E, cfg)
         got = dyn._getSolarRadiationPressureAcceleration(r, np.array(sun))  # noqa: SLF001
         full = fr.srp_accel(r, sun, cfg["sat_ratio"], E.const.SOLAR_PRESSURE, E.const.AU2KM, 1.0).astype(float)
         ref = full * ref_f
         err = float(np.linalg.norm(got - ref)) / float(np.linalg.norm(full))
-        ctx.check(err <= TOL_TERM + TOL_FRACTION, "srp-formula", f"SRP acceleration differs from -P (C_R A/m) (AU/d)^2 d^/1000 x fraction by {err:.2e} of the unshadowed value "
+        ctx.check(err <= TOL_TERM + tol_f, "srp-formula", f"SRP acceleration differs from -P (C_R A/m) (AU/d)^2 d^/1000 x fraction by {err:.2e} of the unshadowed value "
                   f"(got {_f(got)}, ref {_f(ref)})", {"kind": "srp_term", **w}, mon="term_srp")
     if hasattr(sp, "_getGeneralRelativityAcceleration"):
         got = sp._getGeneralRelativityAcceleration(r, v)  # noqa: SLF001
@@ -628,7 +641,7 @@ def constants_check(ctx, E):
 # ---------------------------------------------------------------------------------------------
 def continuity_check(ctx, E, body, jd_b, label):
     B = E.body[body]
-    d = CONT_DELTA
+    d = CONT_DELTA  # 2^-20 day: boundary +- k d are exactly representable Julian dates (no time quantisation noise)
     p = [np.array(B.getPosition(jd_b + k * d), dtype=float) for k in (-3, -1, 1, 3)]
     p0 = np.array(B.getPosition(jd_b), dtype=float)
     d1, d2, d3 = p[1] - p[0], p[2] - p[1], p[3] - p[2]
@@ -716,12 +729,13 @@ def run_ephemeris(ctx, E, rng):
 # ---------------------------------------------------------------------------------------------
 # real propagations with the sampled postcondition
 # ---------------------------------------------------------------------------------------------
-def _orbit_state(rng, E):
+def _orbit_state(rng, E, r_max=None):
     """Elliptic orbit state with perigee >= 250 km (so that short propagations stay above 200 km)."""
     RE = E.Earth.radius
-    rp = RE + 250.0 + (9.0 * RE - 250.0) * rng.random() ** 2
+    r_max = r_max or 10.0 * RE
+    rp = RE + 250.0 + (0.9 * r_max - RE - 250.0) * rng.random() ** 2
     ra = rp * (1 + rng.choice([0.0, 0.01, 0.3, rng.uniform(0, 2)]))
-    ra = min(ra, 10.0 * RE)
+    ra = min(ra, r_max)
     a = 0.5 * (rp + ra)
     rr = rng.uniform(rp, ra) if ra > rp else rp
     d = _unit(rng)
@@ -780,7 +794,7 @@ def run_scenario(ctx, E, rng, every, max_checks):
     cfg["sat_ratio"] = (1.0 + refl) * (area / mass)
     tg = []
     for k in range(rng.choice([1, 2, 3])):
-        x = _orbit_state(rng, E)
+        x = _orbit_state(rng, E, r_max=E.Earth.radius + 35000.0)  # the scenario config rejects altitudes above GEO
         c = sk.target_cfg(10001 + k, x[:3], x[3:])
         c["platform"].update({"mass": mass, "visual_cross_section": area, "reflectivity": refl})
         tg.append(c)
@@ -827,7 +841,7 @@ def run(ctx):
         ctx.case(("h", n, m, which), nontrivial=True)
 
     # 3. direct grid ------------------------------------------------------------------------------
-    n = ctx.scale(2400, 160_000)
+    n = ctx.scale(6000, 200_000)
     worst = 0.0
     worst_frame = 0.0
     for i in range(n):
@@ -881,13 +895,13 @@ def run(ctx):
     # 5. real propagations with the sampled postcondition ------------------------------------------
     pr = ctx.pyrng("prop")
     every = 5 if ctx.quick else 7
-    n_prop = ctx.scale(16, 640)
+    n_prop = ctx.scale(32, 960)
     for i in range(n_prop):
         if ctx.time_left() < 0.15 * budget:
             ctx.count("propagation_cut_by_time")
             break
         run_direct_propagation(ctx, E, pr, i * ctx.nshards + ctx.shard, every, 40 if ctx.quick else 120)
-    n_scen = ctx.scale(4, 96)
+    n_scen = ctx.scale(8, 160)
     for i in range(n_scen):
         if ctx.time_left() < 0.05 * budget:
             break
@@ -895,7 +909,7 @@ def run(ctx):
     for k, v in _WORST.items():
         ctx.add_to_set("worst_error_over_tolerance:" + k, float(f"{v:.2g}"))
     ctx.note("tolerances", {"total_rel": TOL_TOTAL, "term_rel": TOL_TERM, "geopotential_term_rel": TOL_GEO_TERM, "single_harmonic_rel": TOL_HARMONIC,
-                            "sun_fraction_abs": TOL_FRACTION, "frame_rad": TOL_FRAME, "sun_deg": TOL_SUN_DEG, "moon_deg": TOL_MOON_DEG, "chebyshev_rel": TOL_CHEB})
+                            "sun_fraction_x_conditioning": K_FRACTION, "frame_rad": TOL_FRAME, "sun_deg": TOL_SUN_DEG, "moon_deg": TOL_MOON_DEG, "chebyshev_rel": TOL_CHEB})
 
 
 # ---------------------------------------------------------------------------------------------
